@@ -98,6 +98,12 @@ Theorem C03_count_increasing : forall c w, wf_case c = true ->
 Proof. exact count_increasing. Qed.
 Print Assumptions C03_count_increasing.
 
+(* the model's reader never takes the [OPanic] outcome of the fragment assembler (C05's debug-build
+   arithmetic): along every well-formed history no step panics *)
+Theorem C03_no_panic : forall c, wf_case c = true -> never_panics (init (c_matched c)) (c_ops c) = true.
+Proof. exact no_panic. Qed.
+Print Assumptions C03_no_panic.
+
 (* the code before the fix: commit sent the NACKFRAGs with counts above the count of the ACKNACK that
    follows them (witness replayed on the real code: corpus case 0) *)
 Theorem C03_count_old_refuted : exists c, ok c (run_old c) = false.
